@@ -15,19 +15,12 @@ Everything is computed by the model's executable `step` through `Sim.observe`.
 namespace Driver.C13
 open Kit Kit.Locks
 
-def fuel : Nat := 200000
+open Kit.Locks.Acceptor (Session Event Prim)
 
-inductive Session where
-  | none
-  | dead
-  | fmutex (set : List FifoMutex.State)
-  | fmap (set : List FifoMap.State)
-  | cmap (set : List CMap.State)
-  | ctx (set : List Context.State)
-  | outer (set : List OuterCancel.State)
-
-def answer (n : Nat) (line : String) : String :=
-  if n == 0 then s!"reject {line.trimAscii.toString}" else s!"ok {n}"
+def answer (sz : Option Nat) (line : String) : String :=
+  match sz with
+  | some n => s!"ok {n}"
+  | none => s!"reject {line.trimAscii.toString}"
 
 def parseFMutex (l : Line) : Option FifoMutex.L := do
   let t ← l.nat? "t"
@@ -129,71 +122,48 @@ def parseOuter (l : Line) : Option OuterCancel.L :=
     | _ => none
   | _ => none
 
-def startSession (l : Line) : Session × String :=
+def parsePrim (l : Line) : Option Prim :=
   let n := (l.nat? "n").getD 0
   let keys := (l.nat? "keys").getD 1
   match l.get? "prim" with
-  | some "fifomutex" =>
-    let set := FifoMutex.sim.start fuel (FifoMutex.init n)
-    (.fmutex set, s!"ok {set.length}")
-  | some "fifomap" =>
-    let set := FifoMap.sim.start fuel (FifoMap.init n keys)
-    (.fmap set, s!"ok {set.length}")
-  | some "cmap" =>
-    let rc := (l.nat? "rc").getD 1 != 0
-    let set := CMap.sim.start fuel (CMap.init rc n keys)
-    (.cmap set, s!"ok {set.length}")
-  | some "outer" =>
-    let g := (l.nat? "grace").getD 1
-    let set := OuterCancel.sim.start fuel (OuterCancel.init n g)
-    (.outer set, s!"ok {set.length}")
-  | some "context" =>
-    let set := Context.sim.start fuel (Context.init n)
-    (.ctx set, s!"ok {set.length}")
-  | _ => (.none, "error unknown-prim")
+  | some "fifomutex" => some (.fmutex n)
+  | some "fifomap" => some (.fmap n keys)
+  | some "cmap" => some (.cmap ((l.nat? "rc").getD 1 != 0) n keys)
+  | some "context" => some (.ctx n)
+  | some "outer" => some (.outer n ((l.nat? "grace").getD 1))
+  | _ => none
+
+/-- parse an event line into a label of the session's primitive -/
+def parseEvent (sess : Session) (l : Line) : Option Event :=
+  match sess with
+  | .none => none
+  | .fmutex _ => (parseFMutex l).map .fmutex
+  | .fmap _ => (parseFMap l).map .fmap
+  | .cmap _ => (parseCMap l).map .cmap
+  | .ctx _ => (parseCtx l).map .ctx
+  | .outer _ => (parseOuter l).map .outer
 
 def stepLine (sess : Session) (raw : String) : Session × String :=
   let l := parseLine raw
-  if l.op == "new" then startSession l
-  else match sess with
-  | .none => (.none, "error no-session")
-  | .dead => (.dead, "dead")
-  | .fmutex set =>
-    match parseFMutex l with
-    | some a => let set' := FifoMutex.sim.observe fuel set a
-                (if set'.isEmpty then .dead else .fmutex set', answer set'.length raw)
-    | none => (sess, "error parse")
-  | .fmap set =>
-    match parseFMap l with
-    | some a => let set' := FifoMap.sim.observe fuel set a
-                (if set'.isEmpty then .dead else .fmap set', answer set'.length raw)
-    | none => (sess, "error parse")
-  | .cmap set =>
-    match parseCMap l with
-    | some a => let set' := CMap.sim.observe fuel set a
-                (if set'.isEmpty then .dead else .cmap set', answer set'.length raw)
-    | none => (sess, "error parse")
-  | .ctx _ => (sess, "error internal")
-  | .outer _ => (sess, "error internal")
-
-def stepLine2 (sess : Session) (raw : String) : Session × String :=
-  let l := parseLine raw
-  match sess with
-  | .ctx set =>
-    if l.op == "new" then startSession l else
-    match parseCtx l with
-    | some a => let set' := Context.sim.observe fuel set a
-                (if set'.isEmpty then .dead else .ctx set', answer set'.length raw)
-    | none => (sess, "error parse")
-  | .outer set =>
-    if l.op == "new" then startSession l else
-    match parseOuter l with
-    | some a => let set' := OuterCancel.sim.observe fuel set a
-                (if set'.isEmpty then .dead else .outer set', answer set'.length raw)
-    | none => (sess, "error parse")
-  | _ => stepLine sess raw
+  if l.op == "new" then
+    match parsePrim l with
+    | some p => let s := Session.start p; (s, answer s.size raw)
+    | none => (.none, "error unknown-prim")
+  else
+    match sess with
+    | .none => (.none, "error no-session")
+    | _ =>
+      match sess.size with
+      | none => (sess, "dead")
+      | some _ =>
+        match parseEvent sess l with
+        | none => (sess, "error parse")
+        | some ev =>
+          match sess.feed ev with
+          | some sess' => (sess', answer sess'.size raw)
+          | none => (sess, "error parse")
 
 def main (_args : List String) : IO UInt32 := do
-  lineLoop stepLine2 Session.none
+  lineLoop stepLine Session.none
   return 0
 end Driver.C13
